@@ -9,7 +9,7 @@ from .program import OUTCOMES, PHRASE
 TAGS = ["a", "b", "c", "wip", "x.y"]
 # tags with a character that behave's tag normalisation for outline rows (Tag.make_name) would
 # drop: used everywhere except ON outlines / inside outline tag placeholders (open point of C06)
-TAGS_X = TAGS + ["p/q"]
+TAGS_X = TAGS + ["p/q", "android"]     # "android": contains the letters of and / or (never an operator)
 STEP_KW = ["Given", "When", "Then", "And", "But", "*"]
 
 
@@ -75,10 +75,12 @@ def scenario_st(draw, inherited=False, max_steps=4, min_steps=0, **kw):
 def outline_st(draw, inherited=False, max_steps=3, outcomes=None, **kw):
     outcomes = outcomes or OUTCOMES
     use_tagcol = draw(st.booleans())
-    cols = ["x"] + (["t"] if use_tagcol else [])
+    # the tag column may have a heading that is no identifier (user-id, e-mail): still a <placeholder>
+    tcol = draw(st.sampled_from(["t", "t", "t-id"]))
+    cols = ["x"] + ([tcol] if use_tagcol else [])
     tags = draw(tags_st(pool=TAGS))
     if use_tagcol and draw(st.booleans()):
-        tags = tags + [u"<t>"]
+        tags = tags + [u"<%s>" % tcol]
     steps = draw(steps_st(1, max_steps, inherited=inherited, outcomes=outcomes, cols=["x"], **kw))
     nex = draw(st.integers(0, 2)) if draw(st.integers(0, 5)) else 0
     if nex == 0 and draw(st.integers(0, 3)):
@@ -95,7 +97,7 @@ def outline_st(draw, inherited=False, max_steps=3, outcomes=None, **kw):
             if o == "raise" and draw(st.integers(0, 2)) == 0:
                 o = "raise_timeout"
             cell = {"x": PHRASE[o],
-                    "t": draw(st.sampled_from(TAGS))}
+                    tcol: draw(st.sampled_from(TAGS))}
             rows.append([cell[c] for c in order])
         examples.append({"tags": draw(tags_st(1)), "cols": list(order), "rows": rows,
                          "name": draw(st.sampled_from([u"", u"E1", u"ex two"]))})
